@@ -223,8 +223,8 @@ pub fn c01_check(ctx: &Ctx, st: &mut Local, eng: &str, idx: u64, f: &[u8], with_
         }
     }
     // the log level is an argument of expand_zlib_chunks too: with logging on (output goes to stdout) the call must
-    // neither panic nor return anything else; every 4th small file
-    if idx % 4 == 0 && f.len() <= 4000 {
+    // neither panic nor return anything else; every 4th small file (not the all-byte-strings engine: strings of <= 4 bytes hold no stream)
+    if idx % 4 == 0 && f.len() <= 4000 && !eng.starts_with("E7") {
         match caught(|| s.expand_log(f, 1)) {
             Err(p) => {
                 st.violation(ctx.viol(eng, idx, "expand-panic-with-logging", Some(p.loc.clone()), format!("expand_zlib_chunks(.., loglevel 1) panicked: {}", p.msg), f));
